@@ -147,6 +147,11 @@ static void build_menus() {
 #if VX_PAYLOAD
 		if ((opt.mf & MF_GUARD_REQ) && (opt.mf & MF_GUARD_CANCEL) && (opt.mf & MF_PAYLOAD)) for (int k = 0; k < N; ++k) g.push(Act{A_CANCEL_CHANGEW, static_cast<uint8_t>(k), 0, 2});
 #endif
+		if ((opt.mf & MF_COMPOSITE) && (opt.mf & MF_GUARD_REQ) && (opt.mf & MF_GUARD_CANCEL)) for (int k = 0; k < N; ++k) g.push(Act{A_CHANGE_CANCEL, static_cast<uint8_t>(k), 0, 0});
+		if ((opt.mf & MF_COMPOSITE) && (opt.mf & MF_GUARD_REQ)) for (int a = 0; a < N; ++a) for (int b = 0; b < N; ++b) if (a != b) g.push(Act{A_CHANGE2, static_cast<uint8_t>(a), static_cast<uint8_t>(b), 0});
+#if VX_PAYLOAD
+		if ((opt.mf & MF_COMPOSITE) && (opt.mf & MF_GUARD_REQ) && (opt.mf & MF_PAYLOAD)) for (int a = 0; a < N; ++a) for (int b = 0; b < N; ++b) { g.push(Act{A_CHANGEW_CHANGE, static_cast<uint8_t>(a), static_cast<uint8_t>(b), 1}); g.push(Act{A_CHANGE_CHANGEW, static_cast<uint8_t>(a), static_cast<uint8_t>(b), 2}); }
+#endif
 		// the hostile replica strategy uses the LAST entry: cancel and redirect
 		if ((opt.mf & MF_GUARD_REQ) && (opt.mf & MF_GUARD_CANCEL)) for (int k = 0; k < N; ++k) g.push(Act{A_CANCEL_CHANGE, static_cast<uint8_t>(k), 0, 0});
 
@@ -155,7 +160,12 @@ static void build_menus() {
 #if VX_PAYLOAD
 		if ((opt.mf & MF_PHASE_REQ) && (opt.mf & MF_PAYLOAD)) for (int k = 0; k < N; ++k) { f.push(Act{A_CHANGEW, static_cast<uint8_t>(k), 0, 1}); if (opt.mf & MF_PAYLOAD2) f.push(Act{A_CHANGEW, static_cast<uint8_t>(k), 0, 2}); }
 #endif
+		if ((opt.mf & MF_COMPOSITE) && (opt.mf & MF_PHASE_REQ)) for (int a = 0; a < N; ++a) for (int b = 0; b < N; ++b) if (a != b) f.push(Act{A_CHANGE2, static_cast<uint8_t>(a), static_cast<uint8_t>(b), 0});
+#if VX_PAYLOAD
+		if ((opt.mf & MF_COMPOSITE) && (opt.mf & MF_PHASE_REQ) && (opt.mf & MF_PAYLOAD)) for (int a = 0; a < N; ++a) for (int b = 0; b < N; ++b) { f.push(Act{A_CHANGEW_CHANGE, static_cast<uint8_t>(a), static_cast<uint8_t>(b), 1}); f.push(Act{A_CHANGE_CHANGEW, static_cast<uint8_t>(a), static_cast<uint8_t>(b), 2}); }
+#endif
 #if VX_PLANS
+		if ((opt.mf & MF_COMPOSITE) && (opt.mf & MF_REPORT) && !root) { f.push(Act{A_FAIL_SUCCEED, 0, 0, 0}); f.push(Act{A_SUCCEED_FAIL, 0, 0, 0}); if (opt.mf & MF_PHASE_REQ) for (int k = 0; k < N; ++k) { f.push(Act{A_SUCCEED_CHANGE, static_cast<uint8_t>(k), 0, 0}); f.push(Act{A_CHANGE_SUCCEED, static_cast<uint8_t>(k), 0, 0}); } }
 		if (opt.mf & MF_REPORT) {
 			if (!root) { f.push(Act{A_SUCCEED, 0, 0, 0}); f.push(Act{A_FAIL, 0, 0, 0}); }
 			else for (int k = 0; k < N; ++k) { f.push(Act{A_SUCCEED_ID, static_cast<uint8_t>(k), 0, 0}); f.push(Act{A_FAIL_ID, static_cast<uint8_t>(k), 0, 0}); }
